@@ -278,17 +278,7 @@ def statement_to_ast(statement):
     return StatementWrapper(statement)
 
 
-def conditional_to_ast(statement):
-    if statement.condition is not True:
-        new_statement = statement.copy(condition=True)
-        return IfThenElse(statement.condition,
-            statement_to_ast(new_statement),
-            NullASTNode())
-    else:
-        return statement_to_ast(statement)
-
-
-def loop_to_ast_node(statement):
+def loops_to_ast(statement):
     if isinstance(statement, Assign) and statement.loops:
         loop_var_name, lower, upper = statement.loops[0]
         new_statement = statement.copy(loops=statement.loops[1:])
@@ -296,9 +286,21 @@ def loop_to_ast_node(statement):
                 loop_var_name=loop_var_name,
                 lbound=lower,
                 ubound=upper,
-                body=loop_to_ast_node(new_statement))
+                body=loops_to_ast(new_statement))
     else:
-        return conditional_to_ast(statement)
+        return statement_to_ast(statement)
+
+
+def loop_to_ast_node(statement):
+    # The condition of a statement is evaluated once, before its loops (and
+    # their bounds): the conditional goes outside the loop nest.
+    if statement.condition is not True:
+        new_statement = statement.copy(condition=True)
+        return IfThenElse(statement.condition,
+            loops_to_ast(new_statement),
+            NullASTNode())
+    else:
+        return loops_to_ast(statement)
 
 
 def create_ast_from_phase(code, phase_name):
